@@ -13,6 +13,9 @@ Pure Python, no liquid2 imports.  Templates are JSON data:
          | ["inc", template]                         {% include 'template' %}
          | ["ren", template, [key...]]               {% render 'template', key: key, ... %}
          | ["x", template]                           an explicit {% extends 'template' %} tag
+         | ["cap", name, [node...]]                  {% capture name %}..{% endcapture %}{{ name }} (name used once)
+
+    A template may also carry "pre": text written in front of its `extends` tag.
 
 `to_source` prints a template, `resolve` computes what the documentation says the
 page is:
@@ -24,9 +27,10 @@ page is:
   body of the most-derived definition of that name (search leaf -> base); child text
   outside blocks is never rendered; `block.super` inside a definition renders the body
   of the next less-derived definition of the same name (empty when there is none);
-* a block whose chosen (most-derived) definition is flagged `required` cannot be
-  rendered: RequiredBlockError.  A `required` flag on a less-derived definition is
-  satisfied by any more-derived definition of the name;
+* a chain in which the chosen (most-derived) definition of some block is flagged
+  `required` is rejected: RequiredBlockError, whether or not the block would be met.  A
+  `required` flag on a less-derived definition is satisfied by any more-derived definition
+  of the name; text in front of the `extends` tag of a child is child text outside blocks;
 * structural errors (found while the chain is walked leaf -> base, before any output):
   more than one `extends` in a template, a block name defined twice in one template,
   an `endblock` name that differs from its block's name (a parse error of that
@@ -64,6 +68,8 @@ class RefError(Exception):
 
 def to_source(tmpl: Template) -> str:
     out: list[str] = []
+    if tmpl.get("pre"):
+        out.append(tmpl["pre"])
     if tmpl.get("extends") is not None:
         out.append("{% extends '" + tmpl["extends"] + "' %}")
     _print(tmpl["body"], out)
@@ -101,6 +107,10 @@ def _print(nodes: list[Node], out: list[str]) -> None:
             out.append("{% render '" + n[1] + "'" + args + " %}")
         elif k == "x":
             out.append("{% extends '" + n[1] + "' %}")
+        elif k == "cap":
+            out.append("{% capture " + n[1] + " %}")
+            _print(n[2], out)
+            out.append("{% endcapture %}{{ " + n[1] + " }}")
         else:  # pragma: no cover
             raise ValueError(f"unknown node {n!r}")
 
@@ -129,6 +139,8 @@ def scan(tmpl: Template) -> tuple[list[str], list[Node]]:
                 exts.append(n[1])
             elif k == "for":
                 walk(n[3])
+            elif k == "cap":
+                walk(n[2])
             elif k == "if":
                 walk(n[2])
                 if n[3] is not None:
@@ -186,9 +198,10 @@ class _Chain:
 
 
 class Resolver:
-    def __init__(self, templates: dict[str, Template], data: dict[str, Any]) -> None:
+    def __init__(self, templates: dict[str, Template], data: dict[str, Any], *, render_pre: bool = False) -> None:
         self.templates = templates
         self.data = data
+        self.render_pre = render_pre  # alternative reading: text in front of `extends` is output (as Jinja does)
         self.info = Info()
         self.depth = 0
         self.active: set[tuple[int, int]] = set()
@@ -241,7 +254,11 @@ class Resolver:
         cur_name, cur = name, tmpl
         defined_in: dict[str, int] = {}
         nested_names: set[str] = set()
+        pres: list[str] = []
         while True:
+            if cur.get("pre") and cur is tmpl:
+                # only the template that is rendered runs its own text; its ancestors only contribute blocks
+                pres.append(cur["pre"].replace("{{ u }}", fmt_value(scope.get("u"))))
             exts, blocks = scan(cur)
             if len(exts) > 1:
                 raise RefError("extends", cur_name)
@@ -262,6 +279,11 @@ class Resolver:
             cur_name, cur = parent, self.load(parent)
         if any(c > 1 for c in defined_in.values()):
             self.info.shared_names = True
+        for bname, defs in stacks.items():
+            # "a `required` block that no descendant overrides ... is rejected": decided by the chain alone,
+            # whether or not the page would ever reach the block
+            if defs[0].node[2]:
+                raise RefError("required", f"{defs[0].tname}:{bname}")
         chain = _Chain(stacks)
         out = self.render_nodes(cur["body"], scope, chain, [], cur_name, 0)
         for bname, defs in stacks.items():
@@ -271,6 +293,8 @@ class Resolver:
                     self.info.required_unreached_names.add(bname)
                 if bname in nested_names:
                     self.info.nested_dropped = True
+        if self.render_pre:
+            out = "".join(pres) + out
         return out
 
     def render_nodes(  # noqa: PLR0912
@@ -332,6 +356,9 @@ class Resolver:
                     out.append(self.render_nodes(n[2], scope, chain, sup, owner, block_depth))
                 elif n[3] is not None:
                     out.append(self.render_nodes(n[3], scope, chain, sup, owner, block_depth))
+            elif k == "cap":
+                # captured and printed straight away: the same text, in place
+                out.append(self.render_nodes(n[2], scope, chain, sup, owner, block_depth))
             elif k == "inc":
                 self.info.partials.append("inc")
                 out.append(self.render_template(n[1], scope))
@@ -350,9 +377,10 @@ class Resolver:
         return "".join(out)
 
 
-def resolve(templates: dict[str, Template], entry: str, data: dict[str, Any]) -> tuple[str, str, Info]:
+def resolve(templates: dict[str, Template], entry: str, data: dict[str, Any], *,
+            render_pre: bool = False) -> tuple[str, str, Info]:
     """('ok', text, info) or ('err', kind, info)."""
-    r = Resolver(templates, data)
+    r = Resolver(templates, data, render_pre=render_pre)
     try:
         text = r.render_template(entry, dict(data))
     except RefError as err:
